@@ -559,6 +559,36 @@ func c03MatrixLegs(c *ctx, desc map[string]any, jSteps, ySteps any) {
 	}
 }
 
+// hasLongDigitRunKey: some mapping key of the document contains a run of 19 or more digits (the input class of F22).
+func hasLongDigitRunKey(v any) bool {
+	switch t := v.(type) {
+	case []any:
+		for _, e := range t {
+			if hasLongDigitRunKey(e) {
+				return true
+			}
+		}
+	case vl.OMap:
+		for _, kv := range t {
+			run := 0
+			for _, ch := range kv.K {
+				if ch >= '0' && ch <= '9' {
+					run++
+					if run >= 19 {
+						return true
+					}
+				} else {
+					run = 0
+				}
+			}
+			if hasLongDigitRunKey(kv.V) {
+				return true
+			}
+		}
+	}
+	return false
+}
+
 // sortedView: values of unknown keys of typed steps live in Go maps only at the first level; nested
 // ordered maps keep their order, so only the top level of such a value may be re-sorted.
 func sortedView(v any) any { return v }
@@ -827,11 +857,26 @@ func runParse(c *ctx, prop string) error {
 				c.res.Fail(core.OracleFailure{What: "re-parsing the " + leg + " marshalling gives a different pipeline", Input: desc, Got: firstDiff(got, want), Known: known})
 			}
 		}
-		for rep := 0; rep < 2; rep++ {
+		marshalReps := 2
+		if hasLongDigitRunKey(treeV) {
+			marshalReps = 40 // the order F22 depends on is random per marshalling: make the listed finding show on every run
+		}
+		for rep := 0; rep < marshalReps; rep++ {
 			jb2, _ := json.Marshal(p)
 			yb2, _ := yaml.Marshal(p)
 			if !bytes.Equal(jb, jb2) || !bytes.Equal(yb, yb2) {
-				c.res.Fail(core.OracleFailure{What: "marshalling the same pipeline twice gives different bytes", Input: desc})
+				f := core.OracleFailure{What: "marshalling the same pipeline twice gives different bytes", Input: desc}
+				if !bytes.Equal(jb, jb2) {
+					f.What += " (JSON)"
+				} else {
+					f.What += " (YAML only)"
+					// F22: yaml.v3 sorts the keys of a Go map with a comparator that is not a strict weak order once a digit
+					// run overflows int64; the order then depends on Go's map iteration order
+					if id, ok := c.known.has("yaml-map-key-sort-digit-run-overflow"); ok && hasLongDigitRunKey(treeV) {
+						f.Known = id
+					}
+				}
+				c.res.Fail(f)
 				break
 			}
 		}
